@@ -193,4 +193,65 @@ func runC14Long(h *H) {
 		h.Emit(cname, "-", oracle)
 		h.Stat("c14long." + k.name)
 	}
+	// several BIG buffered pieces in one flush: a block of two to four String columns of many short rows (each column is
+	// copied into the staging buffer: 64 KiB .. 400 KiB per column), then - as the client does - the blank end-of-data
+	// block appended behind it, one Flush.  The staging buffer grows and is cut several times before anything is written.
+	for i := 0; i < h.N/4+2; i++ {
+		ncols := 2 + h.R.Intn(3)
+		rows := 2000 + h.R.Intn(6000)
+		var in1, in2 []proto.InputColumn
+		var sizes []string
+		for c := 0; c < ncols; c++ {
+			a, b := new(proto.ColStr), new(proto.ColStr)
+			w := 20 + h.R.Intn(60)
+			total := 0
+			for r := 0; r < rows; r++ {
+				v := make([]byte, w+h.R.Intn(8))
+				h.R.Read(v)
+				a.AppendBytes(v)
+				b.AppendBytes(v)
+				total += len(v) + 1
+			}
+			sizes = append(sizes, fmt.Sprint(total))
+			name := fmt.Sprintf("s%d", c)
+			in1 = append(in1, proto.InputColumn{Name: name, Data: a})
+			in2 = append(in2, proto.InputColumn{Name: name, Data: b})
+		}
+		blk := proto.Block{Info: proto.BlockInfo{BucketNum: -1}, Columns: ncols, Rows: rows}
+		blank := proto.Block{Info: proto.BlockInfo{BucketNum: -1}}
+		var viaBuf, viaVec []byte
+		e1 := c14Guard(func() error {
+			b := new(proto.Buffer)
+			if err := blk.EncodeBlock(b, 54460, in1); err != nil {
+				return err
+			}
+			err := blank.EncodeBlock(b, 54460, nil)
+			viaBuf = b.Buf
+			return err
+		})
+		e2 := c14Guard(func() error {
+			var out bytes.Buffer
+			w := proto.NewWriter(&out, new(proto.Buffer))
+			if err := blk.WriteBlock(w, 54460, in2); err != nil {
+				return err
+			}
+			var berr error
+			w.ChainBuffer(func(b *proto.Buffer) { berr = blank.EncodeBlock(b, 54460, nil) })
+			_, ferr := w.Flush()
+			viaVec = out.Bytes()
+			if berr != nil {
+				return berr
+			}
+			return ferr
+		})
+		oracle := "ok"
+		switch {
+		case e1 != nil || e2 != nil:
+			oracle = fmt.Sprintf("FAIL:encoding a block of big String columns failed: buffer path %v, vectored path %v", e1, e2)
+		case !bytes.Equal(viaBuf, viaVec):
+			oracle = "FAIL:the vectored path differs from the buffer path when several big buffered pieces share one flush: " + c14Diff(viaBuf, viaVec)
+		}
+		h.Emit(fmt.Sprintf("bigpieces cols=%d rows=%d bytes=%s", ncols, rows, strings.Join(sizes, ",")), "-", oracle)
+		h.Stat("c14long.bigpieces")
+	}
 }
